@@ -113,10 +113,8 @@ def run_case(case):
             for j, a in enumerate(idx):
                 x, y = P[j, :periods], P0[a, :periods]
                 cnt += periods
-                with np.errstate(invalid="ignore"):
-                    ok = np.abs(x - y) <= 1e-12 * (1 + np.abs(y))
+                ok = e1.refmodel.close(x, y, 1e-12)  # infinities / NaN patterns must agree exactly
                 ok[:, exact_idx] &= x[:, exact_idx] == y[:, exact_idx]
-                ok |= x == y
                 if not ok.all():
                     t, c = [int(v) for v in np.argwhere(~ok)[0]]
                     viols.append(violation("agent-independence", "simulate", "PATH", f"{label}: agent {a} (position {j} in the batch): period {t} column {cols[c]} = {x[t, c]!r}, but {y[t, c]!r} in the base batch", batch=label))
